@@ -1,0 +1,430 @@
+// Copyright 2020-2025 Buf Technologies, Inc.
+//
+// Licensed under the Apache License, Version 2.0 (the "License");
+// you may not use this file except in compliance with the License.
+// You may obtain a copy of the License at
+//
+//      http://www.apache.org/licenses/LICENSE-2.0
+//
+// Unless required by applicable law or agreed to in writing, software
+// distributed under the License is distributed on an "AS IS" BASIS,
+// WITHOUT WARRANTIES OR CONDITIONS OF ANY KIND, either express or implied.
+// See the License for the specific language governing permissions and
+// limitations under the License.
+
+//go:build verif
+
+package bufconfig
+
+// Contracts for the gocv verifier (see /verif/DESIGN.md). Comment-only.
+//
+// C16: the buf.yaml writer/reader conversion functions lose no information.
+//
+// isEmpty: a section is dropped by omitempty exactly when every field is zero.
+//@ func (el externalBufYAMLFileLintV2) isEmpty() (r)
+//@   property C16
+//@   ensures all-fields: r <==> (len(el.Use) == 0 && len(el.Except) == 0 && len(el.Ignore) == 0 && len(el.IgnoreOnly) == 0 && el.EnumZeroValueSuffix == "" && !el.RPCAllowSameRequestResponse && !el.RPCAllowGoogleProtobufEmptyRequests && !el.RPCAllowGoogleProtobufEmptyResponses && el.ServiceSuffix == "" && !el.DisallowCommentIgnores && !el.DisableBuiltin)
+//@   reveal e_lintV2Empty
+//@   ensures matches-spec: r <==> e_lintV2Empty(el)
+//@   canary ensures r
+//
+//@ func (el externalBufYAMLFileLintV1Beta1V1) isEmpty() (r)
+//@   property C16
+//@   ensures all-fields: r <==> (len(el.Use) == 0 && len(el.Except) == 0 && len(el.Ignore) == 0 && len(el.IgnoreOnly) == 0 && el.EnumZeroValueSuffix == "" && !el.RPCAllowSameRequestResponse && !el.RPCAllowGoogleProtobufEmptyRequests && !el.RPCAllowGoogleProtobufEmptyResponses && el.ServiceSuffix == "" && !el.AllowCommentIgnores && !el.DisableBuiltin)
+//@   reveal e_lintV1Empty
+//@   ensures matches-spec: r <==> e_lintV1Empty(el)
+//@   canary ensures r
+//
+//@ func (eb externalBufYAMLFileBreakingV1Beta1V1V2) isEmpty() (r)
+//@   property C16
+//@   ensures all-fields: r <==> (len(eb.Use) == 0 && len(eb.Except) == 0 && len(eb.Ignore) == 0 && len(eb.IgnoreOnly) == 0 && !eb.IgnoreUnstablePackages && !eb.DisableBuiltin)
+//@   reveal e_breakingEmpty
+//@   ensures matches-spec: r <==> e_breakingEmpty(eb)
+//@   canary ensures r
+//
+//@ func getZeroOrSingleValueForMap(m) (r, err)
+//@   property C16
+//@   ensures single: len(m) == 1 ==> err == nil && (exists k K :: k in m && m[k] == r)
+//@   ensures many-rejected: len(m) > 1 ==> err != nil
+//@   ensures at-most-one-ok: len(m) <= 1 ==> err == nil
+//@   loop 0 invariant forall k K :: !(k in $visited)
+//@   canary ensures err != nil
+//
+// Accessors of the configuration interfaces are pure (assumption; the concrete accessors below are verified).
+//@ trusted pure interface CheckConfig
+//@ trusted pure interface LintConfig
+//@ trusted pure interface BreakingConfig
+//
+// Reader side: checks are switched off iff an ignore path names the module directory itself.
+//@ func isLintOrBreakingDisabledBasedOnIgnores(fieldName, ignores, moduleDirPath) (r, err)
+//@   property C16
+//@   reveal e_disabledByIgnores
+//@   ensures disabled-iff-self-ignored: err == nil ==> (r <==> e_disabledByIgnores(ignores, moduleDirPath))
+//@   ensures error-only-invalid: err != nil ==> (exists j int :: 0 <= j && j < len(ignores) && second(normalpath.NormalizeAndValidate(ignores[j])) != nil)
+//@   ensures all-valid-ok: (forall j int :: 0 <= j && j < len(ignores) ==> second(normalpath.NormalizeAndValidate(ignores[j])) == nil) ==> err == nil
+//@   ensures error-not-disabled: err != nil ==> !r
+//@   loop 0 invariant forall j int :: 0 <= j && j < $i ==> second(normalpath.NormalizeAndValidate(ignores[j])) == nil && normalpath.Normalize(ignores[j]) != moduleDirPath
+//@   canary ensures r
+//@   canary ensures err != nil
+//
+// The concrete configuration objects: every constructor argument is stored in its own field, and every
+// accessor returns its own field (a swapped pair of bool arguments would be caught here).
+//@ func newLintConfig(checkConfig, enumZeroValueSuffix, rpcAllowSameRequestResponse, rpcAllowGoogleProtobuEmptyRequests, rpcAllowGoogleProtobufEmptyResponses, serviceSuffix, allowCommentIgnores) (r)
+//@   property C16
+//@   ensures fresh: r != nil
+//@   ensures check-config: r.CheckConfig == checkConfig
+//@   ensures enum-zero-value-suffix: r.enumZeroValueSuffix == enumZeroValueSuffix
+//@   ensures rpc-same: r.rpcAllowSameRequestResponse == rpcAllowSameRequestResponse
+//@   ensures rpc-empty-requests: r.rpcAllowGoogleProtobuEmptyRequests == rpcAllowGoogleProtobuEmptyRequests
+//@   ensures rpc-empty-responses: r.rpcAllowGoogleProtobufEmptyResponses == rpcAllowGoogleProtobufEmptyResponses
+//@   ensures service-suffix: r.serviceSuffix == serviceSuffix
+//@   ensures comment-ignores: r.allowCommentIgnores == allowCommentIgnores
+//@ func (l *lintConfig) EnumZeroValueSuffix() (r)
+//@   property C16
+//@   ensures r == l.enumZeroValueSuffix
+//@ func (l *lintConfig) RPCAllowSameRequestResponse() (r)
+//@   property C16
+//@   ensures r == l.rpcAllowSameRequestResponse
+//@ func (l *lintConfig) RPCAllowGoogleProtobufEmptyRequests() (r)
+//@   property C16
+//@   ensures r == l.rpcAllowGoogleProtobuEmptyRequests
+//@ func (l *lintConfig) RPCAllowGoogleProtobufEmptyResponses() (r)
+//@   property C16
+//@   ensures r == l.rpcAllowGoogleProtobufEmptyResponses
+//@ func (l *lintConfig) ServiceSuffix() (r)
+//@   property C16
+//@   ensures r == l.serviceSuffix
+//@ func (l *lintConfig) AllowCommentIgnores() (r)
+//@   property C16
+//@   ensures r == l.allowCommentIgnores
+//
+//@ func newBreakingConfig(checkConfig, ignoreUnstablePackages) (r)
+//@   property C16
+//@   ensures fresh: r != nil
+//@   ensures check-config: r.CheckConfig == checkConfig
+//@   ensures ignore-unstable: r.ignoreUnstablePackages == ignoreUnstablePackages
+//@ func (b *breakingConfig) IgnoreUnstablePackages() (r)
+//@   property C16
+//@   ensures r == b.ignoreUnstablePackages
+//
+//@ func newDisabledCheckConfig(fileVersion) (r)
+//@   property C16
+//@   ensures fresh: r != nil
+//@   ensures disabled: r.disabled
+//@   ensures version: r.fileVersion == fileVersion
+//@   ensures nothing-else: len(r.use) == 0 && len(r.except) == 0 && len(r.ignore) == 0 && len(r.ignoreOnly) == 0 && !r.disableBuiltin
+//@ func newEnabledCheckConfigNoValidate(fileVersion, use, except, ignore, ignoreOnly, disableBuiltin) (r)
+//@   property C16
+//@   ensures fresh: r != nil
+//@   ensures enabled: !r.disabled
+//@   ensures version: r.fileVersion == fileVersion
+//@   ensures use: r.use == use
+//@   ensures except: r.except == except
+//@   ensures ignore: r.ignore == ignore
+//@   ensures ignore-only: r.ignoreOnly == ignoreOnly
+//@   ensures disable-builtin: r.disableBuiltin == disableBuiltin
+//@ func (c *checkConfig) Disabled() (r)
+//@   property C16
+//@   ensures r == c.disabled
+//@ func (c *checkConfig) FileVersion() (r)
+//@   property C16
+//@   ensures r == c.fileVersion
+//@ func (c *checkConfig) UseIDsAndCategories() (r)
+//@   property C16
+//@   ensures r == c.use
+//@ func (c *checkConfig) ExceptIDsAndCategories() (r)
+//@   property C16
+//@   ensures r == c.except
+//@ func (c *checkConfig) IgnorePaths() (r)
+//@   property C16
+//@   ensures r == c.ignore
+//@ func (c *checkConfig) DisableBuiltin() (r)
+//@   property C16
+//@   ensures r == c.disableBuiltin
+//@ func copyStringToStringSliceMap(m) (r)
+//@   property C16
+//@   ensures same-keys: r != nil && (forall k string :: (k in r) <==> (k in m))
+//@   ensures same-values: forall k string :: k in m ==> r[k] == m[k]
+//@   loop 0 invariant c != nil && (forall k string :: (k in c) <==> (k in $visited)) && (forall k string :: k in c ==> k in m && c[k] == m[k])
+//@ func (c *checkConfig) IgnoreIDOrCategoryToPaths() (r)
+//@   property C16
+//@   ensures same-keys: forall k string :: (k in r) <==> (k in c.ignoreOnly)
+//@   ensures same-values: forall k string :: k in r ==> r[k] == c.ignoreOnly[k]
+//
+// Reader side, path re-basing: every external path is validated, must lie inside the module directory
+// (or is skipped when it comes from a workspace-wide section), and is made relative to the module directory.
+//@ func getRelPathsForLintOrBreakingExternalPaths(fieldName, paths, moduleDirPath, requirePathsToBeContainedWithinModuleDirPath) (r, err)
+//@   property C16
+//@   requires validRel(moduleDirPath)
+//@   ensures all-valid: err == nil ==> (forall j int :: 0 <= j && j < len(paths) ==> second(normalpath.NormalizeAndValidate(paths[j])) == nil)
+//@   ensures only-rebased: err == nil ==> (forall q int :: 0 <= q && q < len(r) ==> validRel(r[q]) && (exists j int :: 0 <= j && j < len(paths) && ancOrSelf(moduleDirPath, normalpath.Normalize(paths[j])) && r[q] == e_relTo(moduleDirPath, normalpath.Normalize(paths[j]))))
+//@   ensures all-rebased: err == nil ==> (forall j int :: 0 <= j && j < len(paths) && ancOrSelf(moduleDirPath, normalpath.Normalize(paths[j])) ==> (exists q int :: 0 <= q && q < len(r) && r[q] == e_relTo(moduleDirPath, normalpath.Normalize(paths[j]))))
+//@   ensures strict-elementwise: err == nil && requirePathsToBeContainedWithinModuleDirPath ==> len(r) == len(paths) && (forall j int :: 0 <= j && j < len(paths) ==> ancOrSelf(moduleDirPath, normalpath.Normalize(paths[j])) && r[j] == e_relTo(moduleDirPath, normalpath.Normalize(paths[j])))
+//@   ensures outside-rejected-when-strict: requirePathsToBeContainedWithinModuleDirPath && (exists j int :: 0 <= j && j < len(paths) && second(normalpath.NormalizeAndValidate(paths[j])) == nil && !ancOrSelf(moduleDirPath, normalpath.Normalize(paths[j]))) ==> err != nil
+//@   ensures complete: (forall j int :: 0 <= j && j < len(paths) ==> second(normalpath.NormalizeAndValidate(paths[j])) == nil && ancOrSelf(moduleDirPath, normalpath.Normalize(paths[j]))) ==> err == nil
+//@   ensures lenient-complete: !requirePathsToBeContainedWithinModuleDirPath && (forall j int :: 0 <= j && j < len(paths) ==> second(normalpath.NormalizeAndValidate(paths[j])) == nil) ==> err == nil
+//@   ensures no-more: err == nil ==> len(r) <= len(paths)
+//@   reveal e_rebased, e_allValid, e_anyInside
+//@   ensures summary: err == nil ==> e_rebased(r, paths, moduleDirPath) && e_allValid(r)
+//@   ensures nonempty-iff-any-inside: err == nil ==> ((len(r) > 0) <==> e_anyInside(paths, moduleDirPath))
+//@   loop 0 invariant len(relPaths) <= $i
+//@   loop 0 invariant forall j int :: 0 <= j && j < $i ==> second(normalpath.NormalizeAndValidate(paths[j])) == nil
+//@   loop 0 invariant forall q int :: 0 <= q && q < len(relPaths) ==> validRel(relPaths[q]) && (exists j int :: 0 <= j && j < $i && ancOrSelf(moduleDirPath, normalpath.Normalize(paths[j])) && relPaths[q] == e_relTo(moduleDirPath, normalpath.Normalize(paths[j])))
+//@   loop 0 invariant forall j int :: 0 <= j && j < $i && ancOrSelf(moduleDirPath, normalpath.Normalize(paths[j])) ==> (exists q int :: 0 <= q && q < len(relPaths) && relPaths[q] == e_relTo(moduleDirPath, normalpath.Normalize(paths[j])))
+//@   loop 0 invariant len(relPaths) > 0 ==> (exists j int :: 0 <= j && j < $i && ancOrSelf(moduleDirPath, normalpath.Normalize(paths[j])))
+//@   loop 0 invariant requirePathsToBeContainedWithinModuleDirPath ==> len(relPaths) == $i && (forall j int :: 0 <= j && j < $i ==> ancOrSelf(moduleDirPath, normalpath.Normalize(paths[j])) && relPaths[j] == e_relTo(moduleDirPath, normalpath.Normalize(paths[j])))
+//@   canary ensures err != nil
+//@   canary ensures len(r) == len(paths)
+//
+// Writer side, v2 lint: every accessor of the LintConfig lands in the corresponding field; paths are
+// re-based onto the module directory; and a module whose lint is switched off stays switched off.
+// FINDING (fails on this tree, all three writers): post[disabled-preserved]. Disabled() is never consulted, a
+// disabled config has no ignore paths, so the written section is empty and reads back as an ENABLED config.
+// Minimal repair: emit moduleDirPath as an ignore path when Disabled() (what the reader already interprets);
+// the `ignore` clause and loop invariant 0.1 then need the guard `!Disabled() ==>` (checked on a repaired overlay).
+//@ func getExternalLintV2ForLintConfig(lintConfig, moduleDirPath) (r)
+//@   property C16
+//@   closure 0 ensures r == normalpath.Join(moduleDirPath, importPath)
+//@   ensures use: r.Use == lintConfig.UseIDsAndCategories()
+//@   ensures except: r.Except == lintConfig.ExceptIDsAndCategories()
+//@   ensures ignore: len(r.Ignore) == len(lintConfig.IgnorePaths()) && (forall i int :: 0 <= i && i < len(r.Ignore) ==> r.Ignore[i] == normalpath.Join(moduleDirPath, lintConfig.IgnorePaths()[i]))
+//@   ensures ignore-only-keys: forall k string :: (k in r.IgnoreOnly) <==> (k in lintConfig.IgnoreIDOrCategoryToPaths())
+//@   ensures ignore-only-paths: forall k string :: k in r.IgnoreOnly ==> len(r.IgnoreOnly[k]) == len(lintConfig.IgnoreIDOrCategoryToPaths()[k]) && (forall i int :: 0 <= i && i < len(r.IgnoreOnly[k]) ==> r.IgnoreOnly[k][i] == normalpath.Join(moduleDirPath, lintConfig.IgnoreIDOrCategoryToPaths()[k][i]))
+//@   ensures enum-zero-value-suffix: r.EnumZeroValueSuffix == lintConfig.EnumZeroValueSuffix()
+//@   ensures rpc-same: r.RPCAllowSameRequestResponse == lintConfig.RPCAllowSameRequestResponse()
+//@   ensures rpc-empty-requests: r.RPCAllowGoogleProtobufEmptyRequests == lintConfig.RPCAllowGoogleProtobufEmptyRequests()
+//@   ensures rpc-empty-responses: r.RPCAllowGoogleProtobufEmptyResponses == lintConfig.RPCAllowGoogleProtobufEmptyResponses()
+//@   ensures service-suffix: r.ServiceSuffix == lintConfig.ServiceSuffix()
+//@   ensures comment-ignores-inverted: r.DisallowCommentIgnores == !lintConfig.AllowCommentIgnores()
+//@   ensures disable-builtin: r.DisableBuiltin == lintConfig.DisableBuiltin()
+//@   use e_valid-clean
+//@   reveal e_disabledByIgnores
+//@   ensures disabled-preserved: lintConfig.Disabled() && validRel(moduleDirPath) ==> e_disabledByIgnores(r.Ignore, moduleDirPath)
+//@   loop 0 invariant externalLint.Use == lintConfig.UseIDsAndCategories() && externalLint.Except == lintConfig.ExceptIDsAndCategories()
+//@   loop 0 invariant len(externalLint.Ignore) == len(lintConfig.IgnorePaths()) && (forall i int :: 0 <= i && i < len(externalLint.Ignore) ==> externalLint.Ignore[i] == normalpath.Join(moduleDirPath, lintConfig.IgnorePaths()[i]))
+//@   loop 0 invariant forall k string :: (k in externalLint.IgnoreOnly) <==> (k in $visited)
+//@   loop 0 invariant forall k string :: k in $visited ==> k in lintConfig.IgnoreIDOrCategoryToPaths()
+//@   loop 0 invariant forall k string :: k in externalLint.IgnoreOnly ==> len(externalLint.IgnoreOnly[k]) == len(lintConfig.IgnoreIDOrCategoryToPaths()[k]) && (forall i int :: 0 <= i && i < len(externalLint.IgnoreOnly[k]) ==> externalLint.IgnoreOnly[k][i] == normalpath.Join(moduleDirPath, lintConfig.IgnoreIDOrCategoryToPaths()[k][i]))
+// Writer side, v1beta1/v1 lint: same, with allow_comment_ignores stored as is.
+//@ func getExternalLintV1Beta1V1ForLintConfig(lintConfig, moduleDirPath) (r)
+//@   property C16
+//@   closure 0 ensures r == normalpath.Join(moduleDirPath, importPath)
+//@   ensures use: r.Use == lintConfig.UseIDsAndCategories()
+//@   ensures except: r.Except == lintConfig.ExceptIDsAndCategories()
+//@   ensures ignore: len(r.Ignore) == len(lintConfig.IgnorePaths()) && (forall i int :: 0 <= i && i < len(r.Ignore) ==> r.Ignore[i] == normalpath.Join(moduleDirPath, lintConfig.IgnorePaths()[i]))
+//@   ensures ignore-only-keys: forall k string :: (k in r.IgnoreOnly) <==> (k in lintConfig.IgnoreIDOrCategoryToPaths())
+//@   ensures ignore-only-paths: forall k string :: k in r.IgnoreOnly ==> len(r.IgnoreOnly[k]) == len(lintConfig.IgnoreIDOrCategoryToPaths()[k]) && (forall i int :: 0 <= i && i < len(r.IgnoreOnly[k]) ==> r.IgnoreOnly[k][i] == normalpath.Join(moduleDirPath, lintConfig.IgnoreIDOrCategoryToPaths()[k][i]))
+//@   ensures enum-zero-value-suffix: r.EnumZeroValueSuffix == lintConfig.EnumZeroValueSuffix()
+//@   ensures rpc-same: r.RPCAllowSameRequestResponse == lintConfig.RPCAllowSameRequestResponse()
+//@   ensures rpc-empty-requests: r.RPCAllowGoogleProtobufEmptyRequests == lintConfig.RPCAllowGoogleProtobufEmptyRequests()
+//@   ensures rpc-empty-responses: r.RPCAllowGoogleProtobufEmptyResponses == lintConfig.RPCAllowGoogleProtobufEmptyResponses()
+//@   ensures service-suffix: r.ServiceSuffix == lintConfig.ServiceSuffix()
+//@   ensures comment-ignores: r.AllowCommentIgnores == lintConfig.AllowCommentIgnores()
+//@   ensures disable-builtin: r.DisableBuiltin == lintConfig.DisableBuiltin()
+//@   use e_valid-clean
+//@   reveal e_disabledByIgnores
+//@   ensures disabled-preserved: lintConfig.Disabled() && validRel(moduleDirPath) ==> e_disabledByIgnores(r.Ignore, moduleDirPath)
+//@   loop 0 invariant externalLint.Use == lintConfig.UseIDsAndCategories() && externalLint.Except == lintConfig.ExceptIDsAndCategories()
+//@   loop 0 invariant len(externalLint.Ignore) == len(lintConfig.IgnorePaths()) && (forall i int :: 0 <= i && i < len(externalLint.Ignore) ==> externalLint.Ignore[i] == normalpath.Join(moduleDirPath, lintConfig.IgnorePaths()[i]))
+//@   loop 0 invariant forall k string :: (k in externalLint.IgnoreOnly) <==> (k in $visited)
+//@   loop 0 invariant forall k string :: k in $visited ==> k in lintConfig.IgnoreIDOrCategoryToPaths()
+//@   loop 0 invariant forall k string :: k in externalLint.IgnoreOnly ==> len(externalLint.IgnoreOnly[k]) == len(lintConfig.IgnoreIDOrCategoryToPaths()[k]) && (forall i int :: 0 <= i && i < len(externalLint.IgnoreOnly[k]) ==> externalLint.IgnoreOnly[k][i] == normalpath.Join(moduleDirPath, lintConfig.IgnoreIDOrCategoryToPaths()[k][i]))
+// Writer side, breaking (all versions).
+//@ func getExternalBreakingForBreakingConfig(breakingConfig, moduleDirPath) (r)
+//@   property C16
+//@   closure 0 ensures r == normalpath.Join(moduleDirPath, importPath)
+//@   ensures use: r.Use == breakingConfig.UseIDsAndCategories()
+//@   ensures except: r.Except == breakingConfig.ExceptIDsAndCategories()
+//@   ensures ignore: len(r.Ignore) == len(breakingConfig.IgnorePaths()) && (forall i int :: 0 <= i && i < len(r.Ignore) ==> r.Ignore[i] == normalpath.Join(moduleDirPath, breakingConfig.IgnorePaths()[i]))
+//@   ensures ignore-only-keys: forall k string :: (k in r.IgnoreOnly) <==> (k in breakingConfig.IgnoreIDOrCategoryToPaths())
+//@   ensures ignore-only-paths: forall k string :: k in r.IgnoreOnly ==> len(r.IgnoreOnly[k]) == len(breakingConfig.IgnoreIDOrCategoryToPaths()[k]) && (forall i int :: 0 <= i && i < len(r.IgnoreOnly[k]) ==> r.IgnoreOnly[k][i] == normalpath.Join(moduleDirPath, breakingConfig.IgnoreIDOrCategoryToPaths()[k][i]))
+//@   ensures ignore-unstable-packages: r.IgnoreUnstablePackages == breakingConfig.IgnoreUnstablePackages()
+//@   ensures disable-builtin: r.DisableBuiltin == breakingConfig.DisableBuiltin()
+//@   use e_valid-clean
+//@   reveal e_disabledByIgnores
+//@   ensures disabled-preserved: breakingConfig.Disabled() && validRel(moduleDirPath) ==> e_disabledByIgnores(r.Ignore, moduleDirPath)
+//@   loop 0 invariant externalBreaking.Use == breakingConfig.UseIDsAndCategories() && externalBreaking.Except == breakingConfig.ExceptIDsAndCategories()
+//@   loop 0 invariant len(externalBreaking.Ignore) == len(breakingConfig.IgnorePaths()) && (forall i int :: 0 <= i && i < len(externalBreaking.Ignore) ==> externalBreaking.Ignore[i] == normalpath.Join(moduleDirPath, breakingConfig.IgnorePaths()[i]))
+//@   loop 0 invariant forall k string :: (k in externalBreaking.IgnoreOnly) <==> (k in $visited)
+//@   loop 0 invariant forall k string :: k in $visited ==> k in breakingConfig.IgnoreIDOrCategoryToPaths()
+//@   loop 0 invariant forall k string :: k in externalBreaking.IgnoreOnly ==> len(externalBreaking.IgnoreOnly[k]) == len(breakingConfig.IgnoreIDOrCategoryToPaths()[k]) && (forall i int :: 0 <= i && i < len(externalBreaking.IgnoreOnly[k]) ==> externalBreaking.IgnoreOnly[k][i] == normalpath.Join(moduleDirPath, breakingConfig.IgnoreIDOrCategoryToPaths()[k][i]))
+//
+// Path lists of a check config: every path is validated and normalized, the result is sorted, and no path
+// equals or contains another one.
+//@ func normalizeAndCheckPaths(paths, name) (r, err)
+//@   property C16
+//@   ensures empty: len(paths) == 0 ==> err == nil && r == paths
+//@   ensures input-valid: err == nil ==> (forall j int :: 0 <= j && j < len(paths) ==> paths[j] != "" && second(normalpath.NormalizeAndValidate(paths[j])) == nil)
+//@   ensures valid: err == nil ==> len(r) == len(paths) && (forall i int :: 0 <= i && i < len(r) ==> validRel(r[i]))
+//@   ensures only-normalized: err == nil ==> (forall i int :: 0 <= i && i < len(r) ==> (exists j int :: 0 <= j && j < len(paths) && r[i] == normalpath.Normalize(paths[j])))
+//@   ensures all-normalized: err == nil ==> (forall j int :: 0 <= j && j < len(paths) ==> (exists i int :: 0 <= i && i < len(r) && r[i] == normalpath.Normalize(paths[j])))
+//@   ensures sorted: err == nil ==> (forall i int, j int :: 0 <= i && i < j && j < len(r) ==> r[i] <= r[j])
+//@   ensures no-overlap: err == nil ==> (forall a int, b int :: 0 <= a && a < b && b < len(r) ==> r[a] != r[b] && !ancOrSelf(r[a], r[b]) && !ancOrSelf(r[b], r[a]))
+//@   reveal e_normSet, e_sorted, e_allValid, e_noOverlap
+//@   ensures summary: err == nil ==> e_normSet(r, paths) && e_sorted(r) && e_allValid(r) && e_noOverlap(r)
+//@   loop 0 invariant len(outputs) == len(paths) && (forall q int :: 0 <= q && q < $i ==> outputs[q] == normalpath.Normalize(paths[q]) && validRel(outputs[q]) && paths[q] != "" && second(normalpath.NormalizeAndValidate(paths[q])) == nil)
+//@   assert before "for i := range outputs" sorted-all-valid: len(outputs) == len(paths) && (forall q int :: 0 <= q && q < len(outputs) ==> validRel(outputs[q]))
+//@   loop 1 invariant forall a int, b int :: 0 <= a && a < $i1 && a < b && b < len(outputs) ==> outputs[a] != outputs[b] && !ancOrSelf(outputs[a], outputs[b]) && !ancOrSelf(outputs[b], outputs[a])
+//@   loop 2 invariant i + 1 <= j && j <= len(outputs) && 0 <= i && i < len(outputs)
+//@   loop 2 invariant forall b int :: i < b && b < j ==> outputs[i] != outputs[b] && !ancOrSelf(outputs[i], outputs[b]) && !ancOrSelf(outputs[b], outputs[i])
+//@   canary ensures err != nil
+//
+// The validating constructor keeps every argument: ids as the same set (sorted), paths as the set of their
+// normalized forms (sorted, valid, non-overlapping), per rule id.
+//@ func newEnabledCheckConfig(fileVersion, use, except, ignore, ignoreOnly, disableBuiltin) (r, err)
+//@   property C16
+//@   reveal e_sameSet, e_sorted
+//@   use e_norm-compose
+//@   ensures enabled: err == nil ==> r != nil && !r.disabled
+//@   ensures version: err == nil ==> r.fileVersion == fileVersion
+//@   ensures disable-builtin: err == nil ==> r.disableBuiltin == disableBuiltin
+//@   ensures use: err == nil ==> e_sameSet(r.use, use) && e_sorted(r.use)
+//@   ensures except: err == nil ==> e_sameSet(r.except, except) && e_sorted(r.except)
+//@   ensures ignore: err == nil ==> e_normSet(r.ignore, ignore) && e_sorted(r.ignore) && e_allValid(r.ignore) && e_noOverlap(r.ignore)
+//@   ensures ignore-only-keys: err == nil ==> (forall k string :: (k in r.ignoreOnly) <==> (k in old(ignoreOnly)))
+//@   ensures ignore-only-paths: err == nil ==> (forall k string :: k in old(ignoreOnly) ==> e_normSet(r.ignoreOnly[k], old(ignoreOnly)[k]) && e_sorted(r.ignoreOnly[k]) && e_allValid(r.ignoreOnly[k]) && e_noOverlap(r.ignoreOnly[k]))
+//@   loop 0 invariant newIgnoreOnly != nil && (forall k string :: (k in newIgnoreOnly) <==> (k in $visited)) && (forall k string :: k in $visited ==> k in ignoreOnly)
+//@   loop 0 invariant forall k string :: k in newIgnoreOnly ==> e_normSet(newIgnoreOnly[k], ignoreOnly[k]) && e_sorted(newIgnoreOnly[k]) && e_allValid(newIgnoreOnly[k]) && e_noOverlap(newIgnoreOnly[k])
+//@   canary ensures err != nil
+//@   canary ensures err == nil
+//
+// Reader side, v2 lint. Below, cast(*lintConfig, r) is the returned object and
+// cast(*checkConfig, cast(*lintConfig, r).CheckConfig) its embedded check config:
+// every scalar field of the section arrives in its own accessor field (disallow_comment_ignores inverted);
+// the check is switched off exactly when an ignore path names the module directory; otherwise use/except
+// arrive as the same sets, ignore paths and ignore_only paths arrive re-based onto the module directory.
+//@ func getLintConfigForExternalLintV2(fileVersion, externalLint, moduleDirPath, requirePathsToBeContainedWithinModuleDirPath) (r, err)
+//@   property C16
+//@   requires validRel(moduleDirPath)
+//@   use e_rebase-compose
+//@   ensures typed: err == nil ==> r != nil && cast(*lintConfig, r) != nil && cast(*checkConfig, cast(*lintConfig, r).CheckConfig) != nil
+//@   ensures disabled-iff-self-ignored: err == nil ==> (cast(*checkConfig, cast(*lintConfig, r).CheckConfig).disabled <==> e_disabledByIgnores(externalLint.Ignore, moduleDirPath))
+//@   ensures version: err == nil ==> cast(*checkConfig, cast(*lintConfig, r).CheckConfig).fileVersion == fileVersion
+//@   ensures enum-zero-value-suffix: err == nil ==> cast(*lintConfig, r).enumZeroValueSuffix == externalLint.EnumZeroValueSuffix
+//@   ensures rpc-same: err == nil ==> cast(*lintConfig, r).rpcAllowSameRequestResponse == externalLint.RPCAllowSameRequestResponse
+//@   ensures rpc-empty-requests: err == nil ==> cast(*lintConfig, r).rpcAllowGoogleProtobuEmptyRequests == externalLint.RPCAllowGoogleProtobufEmptyRequests
+//@   ensures rpc-empty-responses: err == nil ==> cast(*lintConfig, r).rpcAllowGoogleProtobufEmptyResponses == externalLint.RPCAllowGoogleProtobufEmptyResponses
+//@   ensures service-suffix: err == nil ==> cast(*lintConfig, r).serviceSuffix == externalLint.ServiceSuffix
+//@   ensures comment-ignores-inverted: err == nil ==> cast(*lintConfig, r).allowCommentIgnores == !externalLint.DisallowCommentIgnores
+//@   ensures use: err == nil && !cast(*checkConfig, cast(*lintConfig, r).CheckConfig).disabled ==> e_sameSet(cast(*checkConfig, cast(*lintConfig, r).CheckConfig).use, externalLint.Use) && e_sorted(cast(*checkConfig, cast(*lintConfig, r).CheckConfig).use)
+//@   ensures except: err == nil && !cast(*checkConfig, cast(*lintConfig, r).CheckConfig).disabled ==> e_sameSet(cast(*checkConfig, cast(*lintConfig, r).CheckConfig).except, externalLint.Except) && e_sorted(cast(*checkConfig, cast(*lintConfig, r).CheckConfig).except)
+//@   ensures disable-builtin: err == nil && !cast(*checkConfig, cast(*lintConfig, r).CheckConfig).disabled ==> cast(*checkConfig, cast(*lintConfig, r).CheckConfig).disableBuiltin == externalLint.DisableBuiltin
+//@   ensures ignore: err == nil && !cast(*checkConfig, cast(*lintConfig, r).CheckConfig).disabled ==> e_rebased(cast(*checkConfig, cast(*lintConfig, r).CheckConfig).ignore, externalLint.Ignore, moduleDirPath) && e_sorted(cast(*checkConfig, cast(*lintConfig, r).CheckConfig).ignore) && e_allValid(cast(*checkConfig, cast(*lintConfig, r).CheckConfig).ignore) && e_noOverlap(cast(*checkConfig, cast(*lintConfig, r).CheckConfig).ignore)
+//@   ensures ignore-only-sound: err == nil && !cast(*checkConfig, cast(*lintConfig, r).CheckConfig).disabled ==> (forall k string :: k in cast(*checkConfig, cast(*lintConfig, r).CheckConfig).ignoreOnly ==> k in externalLint.IgnoreOnly && e_rebased(cast(*checkConfig, cast(*lintConfig, r).CheckConfig).ignoreOnly[k], externalLint.IgnoreOnly[k], moduleDirPath) && e_sorted(cast(*checkConfig, cast(*lintConfig, r).CheckConfig).ignoreOnly[k]) && e_allValid(cast(*checkConfig, cast(*lintConfig, r).CheckConfig).ignoreOnly[k]) && e_noOverlap(cast(*checkConfig, cast(*lintConfig, r).CheckConfig).ignoreOnly[k]))
+//@   ensures ignore-only-complete: err == nil && !cast(*checkConfig, cast(*lintConfig, r).CheckConfig).disabled ==> (forall k string :: k in externalLint.IgnoreOnly && e_anyInside(externalLint.IgnoreOnly[k], moduleDirPath) ==> k in cast(*checkConfig, cast(*lintConfig, r).CheckConfig).ignoreOnly)
+//@   loop 0 invariant ignoreOnly != nil && (forall k string :: k in ignoreOnly ==> k in $visited && k in externalLint.IgnoreOnly)
+//@   loop 0 invariant forall k string :: k in ignoreOnly ==> e_rebased(ignoreOnly[k], externalLint.IgnoreOnly[k], moduleDirPath) && e_allValid(ignoreOnly[k])
+//@   loop 0 invariant forall k string :: k in $visited && e_anyInside(externalLint.IgnoreOnly[k], moduleDirPath) ==> k in ignoreOnly
+//@   canary ensures err != nil
+//@   canary ensures err == nil
+// Reader side, v1beta1/v1 lint: same, allow_comment_ignores taken as is.
+//@ func getLintConfigForExternalLintV1Beta1V1(fileVersion, externalLint, moduleDirPath, requirePathsToBeContainedWithinModuleDirPath) (r, err)
+//@   property C16
+//@   requires validRel(moduleDirPath)
+//@   use e_rebase-compose
+//@   ensures typed: err == nil ==> r != nil && cast(*lintConfig, r) != nil && cast(*checkConfig, cast(*lintConfig, r).CheckConfig) != nil
+//@   ensures disabled-iff-self-ignored: err == nil ==> (cast(*checkConfig, cast(*lintConfig, r).CheckConfig).disabled <==> e_disabledByIgnores(externalLint.Ignore, moduleDirPath))
+//@   ensures version: err == nil ==> cast(*checkConfig, cast(*lintConfig, r).CheckConfig).fileVersion == fileVersion
+//@   ensures enum-zero-value-suffix: err == nil ==> cast(*lintConfig, r).enumZeroValueSuffix == externalLint.EnumZeroValueSuffix
+//@   ensures rpc-same: err == nil ==> cast(*lintConfig, r).rpcAllowSameRequestResponse == externalLint.RPCAllowSameRequestResponse
+//@   ensures rpc-empty-requests: err == nil ==> cast(*lintConfig, r).rpcAllowGoogleProtobuEmptyRequests == externalLint.RPCAllowGoogleProtobufEmptyRequests
+//@   ensures rpc-empty-responses: err == nil ==> cast(*lintConfig, r).rpcAllowGoogleProtobufEmptyResponses == externalLint.RPCAllowGoogleProtobufEmptyResponses
+//@   ensures service-suffix: err == nil ==> cast(*lintConfig, r).serviceSuffix == externalLint.ServiceSuffix
+//@   ensures comment-ignores: err == nil ==> cast(*lintConfig, r).allowCommentIgnores == externalLint.AllowCommentIgnores
+//@   ensures use: err == nil && !cast(*checkConfig, cast(*lintConfig, r).CheckConfig).disabled ==> e_sameSet(cast(*checkConfig, cast(*lintConfig, r).CheckConfig).use, externalLint.Use) && e_sorted(cast(*checkConfig, cast(*lintConfig, r).CheckConfig).use)
+//@   ensures except: err == nil && !cast(*checkConfig, cast(*lintConfig, r).CheckConfig).disabled ==> e_sameSet(cast(*checkConfig, cast(*lintConfig, r).CheckConfig).except, externalLint.Except) && e_sorted(cast(*checkConfig, cast(*lintConfig, r).CheckConfig).except)
+//@   ensures disable-builtin: err == nil && !cast(*checkConfig, cast(*lintConfig, r).CheckConfig).disabled ==> cast(*checkConfig, cast(*lintConfig, r).CheckConfig).disableBuiltin == externalLint.DisableBuiltin
+//@   ensures ignore: err == nil && !cast(*checkConfig, cast(*lintConfig, r).CheckConfig).disabled ==> e_rebased(cast(*checkConfig, cast(*lintConfig, r).CheckConfig).ignore, externalLint.Ignore, moduleDirPath) && e_sorted(cast(*checkConfig, cast(*lintConfig, r).CheckConfig).ignore) && e_allValid(cast(*checkConfig, cast(*lintConfig, r).CheckConfig).ignore) && e_noOverlap(cast(*checkConfig, cast(*lintConfig, r).CheckConfig).ignore)
+//@   ensures ignore-only-sound: err == nil && !cast(*checkConfig, cast(*lintConfig, r).CheckConfig).disabled ==> (forall k string :: k in cast(*checkConfig, cast(*lintConfig, r).CheckConfig).ignoreOnly ==> k in externalLint.IgnoreOnly && e_rebased(cast(*checkConfig, cast(*lintConfig, r).CheckConfig).ignoreOnly[k], externalLint.IgnoreOnly[k], moduleDirPath) && e_sorted(cast(*checkConfig, cast(*lintConfig, r).CheckConfig).ignoreOnly[k]) && e_allValid(cast(*checkConfig, cast(*lintConfig, r).CheckConfig).ignoreOnly[k]) && e_noOverlap(cast(*checkConfig, cast(*lintConfig, r).CheckConfig).ignoreOnly[k]))
+//@   ensures ignore-only-complete: err == nil && !cast(*checkConfig, cast(*lintConfig, r).CheckConfig).disabled ==> (forall k string :: k in externalLint.IgnoreOnly && e_anyInside(externalLint.IgnoreOnly[k], moduleDirPath) ==> k in cast(*checkConfig, cast(*lintConfig, r).CheckConfig).ignoreOnly)
+//@   loop 0 invariant ignoreOnly != nil && (forall k string :: k in ignoreOnly ==> k in $visited && k in externalLint.IgnoreOnly)
+//@   loop 0 invariant forall k string :: k in ignoreOnly ==> e_rebased(ignoreOnly[k], externalLint.IgnoreOnly[k], moduleDirPath) && e_allValid(ignoreOnly[k])
+//@   loop 0 invariant forall k string :: k in $visited && e_anyInside(externalLint.IgnoreOnly[k], moduleDirPath) ==> k in ignoreOnly
+//@   canary ensures err != nil
+//@   canary ensures err == nil
+// Reader side, breaking (all versions).
+//@ func getBreakingConfigForExternalBreaking(fileVersion, externalBreaking, moduleDirPath, requirePathsToBeContainedWithinModuleDirPath) (r, err)
+//@   property C16
+//@   requires validRel(moduleDirPath)
+//@   use e_rebase-compose
+//@   ensures typed: err == nil ==> r != nil && cast(*breakingConfig, r) != nil && cast(*checkConfig, cast(*breakingConfig, r).CheckConfig) != nil
+//@   ensures disabled-iff-self-ignored: err == nil ==> (cast(*checkConfig, cast(*breakingConfig, r).CheckConfig).disabled <==> e_disabledByIgnores(externalBreaking.Ignore, moduleDirPath))
+//@   ensures version: err == nil ==> cast(*checkConfig, cast(*breakingConfig, r).CheckConfig).fileVersion == fileVersion
+//@   ensures ignore-unstable-packages: err == nil ==> cast(*breakingConfig, r).ignoreUnstablePackages == externalBreaking.IgnoreUnstablePackages
+//@   ensures use: err == nil && !cast(*checkConfig, cast(*breakingConfig, r).CheckConfig).disabled ==> e_sameSet(cast(*checkConfig, cast(*breakingConfig, r).CheckConfig).use, externalBreaking.Use) && e_sorted(cast(*checkConfig, cast(*breakingConfig, r).CheckConfig).use)
+//@   ensures except: err == nil && !cast(*checkConfig, cast(*breakingConfig, r).CheckConfig).disabled ==> e_sameSet(cast(*checkConfig, cast(*breakingConfig, r).CheckConfig).except, externalBreaking.Except) && e_sorted(cast(*checkConfig, cast(*breakingConfig, r).CheckConfig).except)
+//@   ensures disable-builtin: err == nil && !cast(*checkConfig, cast(*breakingConfig, r).CheckConfig).disabled ==> cast(*checkConfig, cast(*breakingConfig, r).CheckConfig).disableBuiltin == externalBreaking.DisableBuiltin
+//@   ensures ignore: err == nil && !cast(*checkConfig, cast(*breakingConfig, r).CheckConfig).disabled ==> e_rebased(cast(*checkConfig, cast(*breakingConfig, r).CheckConfig).ignore, externalBreaking.Ignore, moduleDirPath) && e_sorted(cast(*checkConfig, cast(*breakingConfig, r).CheckConfig).ignore) && e_allValid(cast(*checkConfig, cast(*breakingConfig, r).CheckConfig).ignore) && e_noOverlap(cast(*checkConfig, cast(*breakingConfig, r).CheckConfig).ignore)
+//@   ensures ignore-only-sound: err == nil && !cast(*checkConfig, cast(*breakingConfig, r).CheckConfig).disabled ==> (forall k string :: k in cast(*checkConfig, cast(*breakingConfig, r).CheckConfig).ignoreOnly ==> k in externalBreaking.IgnoreOnly && e_rebased(cast(*checkConfig, cast(*breakingConfig, r).CheckConfig).ignoreOnly[k], externalBreaking.IgnoreOnly[k], moduleDirPath) && e_sorted(cast(*checkConfig, cast(*breakingConfig, r).CheckConfig).ignoreOnly[k]) && e_allValid(cast(*checkConfig, cast(*breakingConfig, r).CheckConfig).ignoreOnly[k]) && e_noOverlap(cast(*checkConfig, cast(*breakingConfig, r).CheckConfig).ignoreOnly[k]))
+//@   ensures ignore-only-complete: err == nil && !cast(*checkConfig, cast(*breakingConfig, r).CheckConfig).disabled ==> (forall k string :: k in externalBreaking.IgnoreOnly && e_anyInside(externalBreaking.IgnoreOnly[k], moduleDirPath) ==> k in cast(*checkConfig, cast(*breakingConfig, r).CheckConfig).ignoreOnly)
+//@   loop 0 invariant ignoreOnly != nil && (forall k string :: k in ignoreOnly ==> k in $visited && k in externalBreaking.IgnoreOnly)
+//@   loop 0 invariant forall k string :: k in ignoreOnly ==> e_rebased(ignoreOnly[k], externalBreaking.IgnoreOnly[k], moduleDirPath) && e_allValid(ignoreOnly[k])
+//@   loop 0 invariant forall k string :: k in $visited && e_anyInside(externalBreaking.IgnoreOnly[k], moduleDirPath) ==> k in ignoreOnly
+//@   canary ensures err != nil
+//@   canary ensures err == nil
+//
+// The buf.yaml writer. Ghost assertions at the two collapsing steps of the v2 branch and on the build section of the
+// v1beta1/v1 branch.
+//@ trusted pure interface BufYAMLFile
+//@ trusted pure interface ModuleConfig
+//@ trusted pure interface bufparse.Ref
+//@ trusted pure interface bufparse.FullName
+//@ func writeBufYAMLFile(writer, bufYAMLFile) (err)
+//@   property C16
+//@   modifies heap, ghost.fail, ghost.wfail
+//@   reveal e_lintV2Empty, e_breakingEmpty
+//@   closure 2 ensures r == normalpath.Join(moduleDirPath, importPath)
+// v1: build.excludes holds every exclude of the "." root (re-based onto "."), and no roots
+//@   loop 0 invariant len(externalBufYAMLFile.Build.Roots) == 0 && len(externalBufYAMLFile.Build.Excludes) == $i && (forall j int :: 0 <= j && j < $i ==> externalBufYAMLFile.Build.Excludes[j] == normalpath.Join(".", excludes[j]))
+//@   assert before "externalBufYAMLFile.Lint = getExternalLintV1Beta1V1ForLintConfig" v1-excludes-written: fileVersion == FileVersionV1 ==> len(externalBufYAMLFile.Build.Roots) == 0 && len(externalBufYAMLFile.Build.Excludes) == len(rootToExcludes["."]) && (forall j int :: 0 <= j && j < len(rootToExcludes["."]) ==> externalBufYAMLFile.Build.Excludes[j] == normalpath.Join(".", rootToExcludes["."][j]))
+// v1beta1: unless the module is just the "." root without excludes (then nothing is written and the reader's
+// default applies), every root is written and every exclude of every root is written re-based onto its root
+//@   loop 1 invariant len(externalBufYAMLFile.Build.Roots) == $i1 && (forall j int :: 0 <= j && j < $i1 ==> externalBufYAMLFile.Build.Roots[j] == roots[j])
+//@   loop 1 invariant forall j int, q int :: 0 <= j && j < $i1 && 0 <= q && q < len(rootToExcludes[roots[j]]) ==> (exists p int :: 0 <= p && p < len(externalBufYAMLFile.Build.Excludes) && externalBufYAMLFile.Build.Excludes[p] == normalpath.Join(roots[j], rootToExcludes[roots[j]][q]))
+//@   loop 2 invariant $i1 < len(roots) && root == roots[$i1] && len(externalBufYAMLFile.Build.Roots) == $i1 + 1 && (forall j int :: 0 <= j && j <= $i1 ==> externalBufYAMLFile.Build.Roots[j] == roots[j])
+//@   loop 2 invariant forall j int, q int :: 0 <= j && j < $i1 && 0 <= q && q < len(rootToExcludes[roots[j]]) ==> (exists p int :: 0 <= p && p < len(externalBufYAMLFile.Build.Excludes) && externalBufYAMLFile.Build.Excludes[p] == normalpath.Join(roots[j], rootToExcludes[roots[j]][q]))
+//@   loop 2 invariant len(externalBufYAMLFile.Build.Excludes) >= $i2 && (forall q int :: 0 <= q && q < $i2 ==> externalBufYAMLFile.Build.Excludes[len(externalBufYAMLFile.Build.Excludes) - $i2 + q] == normalpath.Join(root, rootToExcludes[root][q]))
+//@   assert before "externalBufYAMLFile.Lint = getExternalLintV1Beta1V1ForLintConfig" v1beta1-trivial-omitted: fileVersion == FileVersionV1Beta1 && len(rootToExcludes) == 1 && "." in rootToExcludes && len(rootToExcludes["."]) == 0 ==> len(externalBufYAMLFile.Build.Roots) == 0 && len(externalBufYAMLFile.Build.Excludes) == 0
+//@   assert before "externalBufYAMLFile.Lint = getExternalLintV1Beta1V1ForLintConfig" v1beta1-roots-written: fileVersion == FileVersionV1Beta1 && !(len(rootToExcludes) == 1 && "." in rootToExcludes && len(rootToExcludes["."]) == 0) ==> (forall k string :: k in rootToExcludes ==> (exists j int :: 0 <= j && j < len(externalBufYAMLFile.Build.Roots) && externalBufYAMLFile.Build.Roots[j] == k)) && (forall j int :: 0 <= j && j < len(externalBufYAMLFile.Build.Roots) ==> externalBufYAMLFile.Build.Roots[j] in rootToExcludes)
+//@   assert before "externalBufYAMLFile.Lint = getExternalLintV1Beta1V1ForLintConfig" v1beta1-excludes-written: fileVersion == FileVersionV1Beta1 && !(len(rootToExcludes) == 1 && "." in rootToExcludes && len(rootToExcludes["."]) == 0) ==> (forall k string, q int :: k in rootToExcludes && 0 <= q && q < len(rootToExcludes[k]) ==> (exists p int :: 0 <= p && p < len(externalBufYAMLFile.Build.Excludes) && externalBufYAMLFile.Build.Excludes[p] == normalpath.Join(k, rootToExcludes[k][q])))
+// v2: one external module per module config, in order, with the module's own includes;
+// at most as many distinct lint/breaking serialisations as modules
+//@   loop 3 invariant stringToExternalLint != nil && stringToExternalBreaking != nil && len(stringToExternalLint) <= $i && len(stringToExternalBreaking) <= $i
+//@   loop 3 invariant len(externalBufYAMLFile.Modules) == $i && $i <= len(bufYAMLFile.ModuleConfigs())
+//@   loop 3 invariant forall j int :: 0 <= j && j < $i ==> len(externalBufYAMLFile.Modules[j].Includes) == len(bufYAMLFile.ModuleConfigs()[j].RootToIncludes()["."]) && externalBufYAMLFile.Modules[j].Path == bufYAMLFile.ModuleConfigs()[j].DirPath()
+//@   loop 3 invariant $i == 1 ==> len(stringToExternalLint) == 1 && len(stringToExternalBreaking) == 1 && (forall k string :: k in stringToExternalLint ==> stringToExternalLint[k] == externalBufYAMLFile.Modules[0].Lint) && (forall k string :: k in stringToExternalBreaking ==> stringToExternalBreaking[k] == externalBufYAMLFile.Modules[0].Breaking)
+//@   assert before "for i := range externalBufYAMLFile.Modules" hoist-equal-single-module: len(externalBufYAMLFile.Modules) == 1 ==> externalBufYAMLFile.Lint == externalBufYAMLFile.Modules[0].Lint && externalBufYAMLFile.Breaking == externalBufYAMLFile.Modules[0].Breaking
+//@   loop 4 invariant len(externalBufYAMLFile.Modules) == len(bufYAMLFile.ModuleConfigs())
+//@   loop 4 invariant forall j int :: 0 <= j && j < len(externalBufYAMLFile.Modules) ==> len(externalBufYAMLFile.Modules[j].Includes) == len(bufYAMLFile.ModuleConfigs()[j].RootToIncludes()["."]) && externalBufYAMLFile.Modules[j].Path == bufYAMLFile.ModuleConfigs()[j].DirPath()
+//@   loop 4 invariant forall j int :: 0 <= j && j < $i ==> e_lintV2Empty(externalBufYAMLFile.Modules[j].Lint) && e_breakingEmpty(externalBufYAMLFile.Modules[j].Breaking)
+// the collapse of a single "." module into the top level must lose nothing
+// FINDING (fails on this tree): assert[collapse-no-includes]. The guard tests Path and Excludes but not Includes,
+// so `includes` of a single "." module are dropped by the write; with the conjunct `len(Includes) == 0` added to
+// the guard all assertions discharge (checked on a repaired overlay).
+//@   assert before "externalBufYAMLFile.Modules = []externalBufYAMLFileModuleV2{}" collapse-no-excludes: len(externalBufYAMLFile.Modules[0].Excludes) == 0
+//@   assert before "externalBufYAMLFile.Modules = []externalBufYAMLFileModuleV2{}" collapse-lint-hoisted: e_lintV2Empty(externalBufYAMLFile.Modules[0].Lint)
+//@   assert before "externalBufYAMLFile.Modules = []externalBufYAMLFileModuleV2{}" collapse-breaking-hoisted: e_breakingEmpty(externalBufYAMLFile.Modules[0].Breaking)
+//@   assert before "externalBufYAMLFile.Modules = []externalBufYAMLFileModuleV2{}" collapse-no-includes: len(externalBufYAMLFile.Modules[0].Includes) == 0
+//@   canary ensures err != nil
+//
+// Exported constructors (used by bufmigrate): arguments are stored unchanged.
+//@ func NewLintConfig(checkConfig, enumZeroValueSuffix, rpcAllowSameRequestResponse, rpcAllowGoogleProtobufEmptyRequests, rpcAllowGoogleProtobufEmptyResponses, serviceSuffix, allowCommentIgnores) (r)
+//@   property C16
+//@   ensures fresh: r != nil && cast(*lintConfig, r) != nil
+//@   ensures check-config: cast(*lintConfig, r).CheckConfig == checkConfig
+//@   ensures enum-zero-value-suffix: cast(*lintConfig, r).enumZeroValueSuffix == enumZeroValueSuffix
+//@   ensures rpc-same: cast(*lintConfig, r).rpcAllowSameRequestResponse == rpcAllowSameRequestResponse
+//@   ensures rpc-empty-requests: cast(*lintConfig, r).rpcAllowGoogleProtobuEmptyRequests == rpcAllowGoogleProtobufEmptyRequests
+//@   ensures rpc-empty-responses: cast(*lintConfig, r).rpcAllowGoogleProtobufEmptyResponses == rpcAllowGoogleProtobufEmptyResponses
+//@   ensures service-suffix: cast(*lintConfig, r).serviceSuffix == serviceSuffix
+//@   ensures comment-ignores: cast(*lintConfig, r).allowCommentIgnores == allowCommentIgnores
+//@ func NewBreakingConfig(checkConfig, ignoreUnstablePackages) (r)
+//@   property C16
+//@   ensures fresh: r != nil && cast(*breakingConfig, r) != nil
+//@   ensures check-config: cast(*breakingConfig, r).CheckConfig == checkConfig
+//@   ensures ignore-unstable: cast(*breakingConfig, r).ignoreUnstablePackages == ignoreUnstablePackages
+//@ func NewEnabledCheckConfig(fileVersion, use, except, ignore, ignoreOnly, disableBuiltin) (r, err)
+//@   property C16
+//@   ensures enabled: err == nil ==> r != nil && cast(*checkConfig, r) != nil && !cast(*checkConfig, r).disabled
+//@   ensures version: err == nil ==> cast(*checkConfig, r).fileVersion == fileVersion
+//@   ensures disable-builtin: err == nil ==> cast(*checkConfig, r).disableBuiltin == disableBuiltin
